@@ -305,4 +305,24 @@ def phaseContainers (V : Variant) (ph : Phase) (net : Dict) (applied : Overrides
   | .coverage => coverageWith (strategyKwargsWith V applied net) d.1
   | .stateful => beforeCallWith applied d.1
 
+/-! ## the transport's extra keyword arguments: the body serializer's result and the provider's `requests` auth object -/
+
+/-- in which order `RequestsTransport.serialize_case` fills `extra` -/
+inductive ExtraOrder where
+  | serializerThenAuth    -- the tree: `extra = serializer(...)` (or `{}`), then `extra["auth"] = case._auth`
+  | authThenSerializer    -- `extra = {"auth": ...}` first; a serializer result then *replaces* `extra`
+  deriving DecidableEq, Repr
+
+def authKey : Key := "auth".toList
+
+/-- `ser`: what the serializer returned (`none`: no body / no media type); `auth`: `case._auth` -/
+def transportExtra (o : ExtraOrder) (ser : Option Dict) (auth : Option String) : Dict :=
+  match o with
+  | .serializerThenAuth =>
+    let extra := ser.getD []
+    match auth with | some a => dset extra authKey a | none => extra
+  | .authThenSerializer =>
+    let extra : Dict := match auth with | some a => [(authKey, a)] | none => []
+    match ser with | some d => d | none => extra
+
 end SV.Model.C14
